@@ -14,6 +14,7 @@ import (
 func init() {
 	vsRegister("C20.gossip_targets", vhC20GossipTargets)
 	vsRegister("C20.radius_cache", vhC20RadiusCache)
+	vsRegister("C20.gossip_many", vhC20GossipMany)
 }
 
 type vmRandShuffle struct{}
@@ -27,7 +28,7 @@ type vmRandShuffle struct{}
 //verif:harness C20.gossip_targets unwind=80 timeout=60
 //verif:use offerenv tablenodes logdist
 //verif:model (*github.com/zen-eth/shisui/portalwire.reseedingRandom).Shuffle = vmShuffle
-//verif:param K=5/9
+//verif:param K=5/6
 func vhC20GossipTargets() {
 	st := &vmStorage{radius: uint256.NewInt(0).SetAllOne()}
 	p := vhOfferProto(16, protocolVersions{1}, st)
@@ -112,6 +113,77 @@ func vhC20GossipTargets() {
 	}
 	if srcIdx >= 0 && known[srcIdx] && covers[srcIdx] {
 		vsCover("source-would-have-been-eligible")
+	}
+}
+
+// vmShuffleAny: one arbitrary transposition of two arbitrary positions.
+func vmShuffleAny(r *reseedingRandom, n int, swap func(i, j int)) {
+	if n >= 2 {
+		swap(vsChoose("shuffle-i", n), vsChoose("shuffle-j", n))
+	}
+}
+
+// Many covered nodes: k = 5..K table nodes in distance order, every one with a radius that covers
+// the content (all-ones), any source, any transposition by the shuffle: at most 8 targets, the
+// first four are the four nearest in order, the others are distinct farther nodes, never the source.
+//
+//verif:harness C20.gossip_many unwind=80 timeout=60
+//verif:use offerenv tablenodes logdist
+//verif:model (*github.com/zen-eth/shisui/portalwire.reseedingRandom).Shuffle = vmShuffleAny
+//verif:param K=10/14
+func vhC20GossipMany() {
+	st := &vmStorage{radius: uint256.NewInt(0).SetAllOne()}
+	p := vhOfferProto(16, protocolVersions{1}, st)
+	p.offerQueue = make(chan *OfferRequestWithNode, 16)
+	key := vsBytesN("key", 32)
+	k := 5 + vsChoose("table-nodes", vsParam("K")-4)
+	vhTableNodes = nil
+	ones := make([]byte, 32)
+	for i := range ones {
+		ones[i] = 0xff
+	}
+	for i := 0; i < k; i++ {
+		var id enode.ID
+		copy(id[:], key)
+		id[0] ^= byte(i + 1)
+		n := vhNodeWithID(0, []uint8{1}, id)
+		vhTableNodes = append(vhTableNodes, n)
+		vmFCSet(p.radiusCache, []byte(n.ID().String()), ones)
+	}
+	var src *enode.ID
+	srcIdx := -1
+	if vsBool("source-is-a-table-node") {
+		srcIdx = vsChoose("source-index", k)
+		id := vhTableNodes[srcIdx].ID()
+		src = &id
+	}
+	targets, err := p.GossipAndReturnPeers(src, [][]byte{key}, [][]byte{{1}})
+	vsAssert(err == nil, "gossip-ok")
+	var eligible []int
+	for i := 0; i < k; i++ {
+		if i != srcIdx {
+			eligible = append(eligible, i)
+		}
+	}
+	vsAssert(len(targets) == min(8, len(eligible)), "all-eligible-up-to-eight")
+	used := make([]bool, k)
+	for ti, t := range targets {
+		ix := -1
+		for i, m := range vhTableNodes {
+			if m == t {
+				ix = i
+			}
+		}
+		vsAssert(ix >= 0, "target-is-a-table-node")
+		vsAssert(ix != srcIdx, "never-back-to-the-source")
+		vsAssert(!used[ix], "no-target-twice")
+		used[ix] = true
+		if ti < 4 {
+			vsAssert(ix == eligible[ti], "first-four-are-the-nearest-covered-in-order")
+		}
+	}
+	if len(eligible) > 8 {
+		vsCover("more-than-eight-covered")
 	}
 }
 
